@@ -412,10 +412,12 @@ def cq_case(evs, outs):
 def run_histories(ctx, cases, cache=10000):
     """cases: list of python event lists -> list of Go outputs (list per case)"""
     inputs = [{"cache": cache, "events": go_events(evs)} for evs in cases]
-    ok, outs, lg = vlib.run_driver_parallel(ctx.bins["engine"], "history", inputs, nshards=12)
+    ok, outs, lg = vlib.run_driver_parallel(ctx.bins["engine"], "history", inputs, nshards=12, resilient=True)
     if not ok or len(outs) != len(cases):
         raise RuntimeError("history driver failed: " + lg[-3000:])
-    return [o["events"] for o in outs]
+    # a case on which the driver process died (fatal error inside the code under test, e.g. unbounded
+    # recursion during recovery) has no observations: every oracle rejects it
+    return [o.get("events", []) if "_fatal" not in o else [] for o in outs]
 
 
 def eval_cases(ctx, name, cases, outs, shard=40, strict=False):
